@@ -303,7 +303,7 @@ def gen_dep_case(rng, max_calls=4, allow_fail=True):
             k = rng.choice([1, 1, 2])
             c["deps"] = [rng.randint(1, i - 1) for _ in range(k)]
             if rng.random() < 0.3:
-                c["nest"] = True
+                c["nest"] = rng.choice([1, 1, 2])       # futures one or two list levels deep
         if not inner_block:
             c["res"] = {}
         calls.append(c)
